@@ -186,10 +186,15 @@ class Series:
 
     @staticmethod
     def atan2(y, x):
-        """atan2(y, x) for y -> 0 and x with positive constant term (principal branch atan(y/x))."""
-        if not x.c or x.val() != 0 or x.c[0] <= 0:
-            raise Unsupported("atan2 with second argument not a positive constant at x=0")
-        return (y / x).atan()
+        """atan2(y, x) near the expansion point: x -> positive constant: atan(y/x);
+        x -> 0+ with y -> positive constant: pi/2 - atan(x/y) (pi as a 1e-16 rational approximation, enough to expose
+        a constant/pole mismatch)."""
+        if x.c and x.val() == 0 and x.c[0] > 0:
+            return (y / x).atan()
+        if y.c and y.val() == 0 and y.c[0] > 0 and (not x.c or x.val() >= 1):
+            import math
+            return Series.const(Fraction(math.pi / 2), min(x.N, y.N)) - (x / y).atan()
+        raise Unsupported("atan2 with arguments outside the supported cases")
 
     # bounds -----------------------------------------------------------------------------
     def sup_abs(self, theta):
